@@ -57,7 +57,7 @@ func init() {
 	})
 	register(&Prop{
 		ID:    "C07",
-		Rules: []func(*core.Ctx){RSeq, RFwdOnly},
+		Rules: []func(*core.Ctx){RSeq, RFwdOnly, RSentinelArg, RUnitCmp},
 		Explanation: "Structural skeleton of match iteration on SSA: R-NEXT (every continued search passes X.textpos and X.RuneLength of the same match X), R-EMPTYBUMP (after an empty previous match every path bumps before searching; stop tests use the direction-selected stoppos), R-ADVANCE (loop variant of scan's attempt loop), R-TEXTPOS (both arms of tidyMatch record the resume position), R-DIRFOLD (folds over the match sequence are direction-aware), R-COUNTN (the find-all limit is charged only for reported matches). " +
 			"Necessary for ordered, terminating iteration. Strict monotonicity of the returned matches (which depends on findFirstChar/execute never moving the attempt position backwards) and the length+1 bound are NOT decided.",
 	})
@@ -123,7 +123,7 @@ func init() {
 	})
 	register(&Prop{
 		ID:    "C08",
-		Rules: []func(*core.Ctx){RCapNorm, RLastCap, RNonNegLen, RRuneWidth, RLazyTable, RStepDecode, RStrText, RUnits},
+		Rules: []func(*core.Ctx){RCapNorm, RLastCap, RNonNegLen, RRuneWidth, RLazyTable, RStepDecode, RStrText, RUnits, RUnitCmp},
 		Explanation: "R-CAPNORM (capture lengths are computed after the end<start swap), R-LASTCAP (a group's embedded capture is its last one; group 0 has exactly one capture from matches[0]: affine evaluation of the index expressions), R-RUNEWIDTH (every byte mapper that sizes runes with RuneLen re-decodes under RuneError), R-STRTEXT (string entry points build match text from the original string), R-UNITS (byte offsets never become rune positions). " +
 			"0 <= index <= index+length <= len for every capture (which depends on the interpreter's positions), balancing compaction and value-for-value agreement of the mappers are NOT decided.",
 	})
